@@ -9,10 +9,6 @@ parks, blocks on the mutex or finishes; mutex hand-off is FIFO (sync.Mutex with 
 -/
 open DriverUtil C13
 
-/-- `int(float64(prev) * (float64(reset) / float64(expiration)))` with IEEE doubles, as the Go code -/
-def floatWt (prev : Int) (reset expiration : Nat) : Int :=
-  (Float.ofInt prev * (Float.ofNat reset / Float.ofNat expiration)).toInt64.toInt
-
 structure CaseCfg where
   cfg : Cfg
   st : String          -- M | X | L
@@ -45,7 +41,7 @@ def parseCfg (s : String) : Except String CaseCfg := do
     unless alg == "F" ∧ st == "M" ∧ exp == 60 ∧ mx == 5 ∧ !(← flag "mf") ∧ !(← flag "sf") ∧ !(← flag "ss") do
       throw "outside-domain: dflt with non-default fields"
   pure { cfg := { sliding := alg == "S", lazy := st == "L", expiration := exp, skipFailed := ← flag "sf",
-                  skipSuccessful := ← flag "ss", wt := floatWt },
+                  skipSuccessful := ← flag "ss", wt := codeWt },
          st := st, cfgMax := mx, mf := ← flag "mf", t0 := t0 }
 
 /-- key:max:status:next -/
@@ -159,13 +155,17 @@ def resultOf (th : Thread) : String :=
 def parseObs (s : String) : Except String Spec.Obs := do
   if s == "panic" || s == "stuck" then return .noAnswer
   match s.splitOn ":" with
-  | [st, ran, ra, lim, _, _] =>
+  | [st, ran, ra, lim, rem, rst] =>
     let some st := st.toNat? | throw "outside-domain: obs status"
     let ra ← (if ra == "x" then pure none else match ra.toNat? with
       | some v => pure (some v) | none => throw "outside-domain: obs retry-after")
     let lim ← (if lim == "x" then pure none else match lim.toInt? with
       | some v => pure (some v) | none => throw "outside-domain: obs limit")
-    pure (.answered st (ran == "1") ra lim)
+    let rem ← (if rem == "x" then pure none else match rem.toInt? with
+      | some v => pure (some v) | none => throw "outside-domain: obs remaining")
+    let rst ← (if rst == "x" then pure none else match rst.toNat? with
+      | some v => pure (some v) | none => throw "outside-domain: obs reset")
+    pure (.answered st (ran == "1") ra lim rem rst)
   | _ => throw "outside-domain: obs syntax"
 
 structure Trace where
